@@ -15,6 +15,7 @@ from flowmark.linewrapping.text_wrapping import (
     DEFAULT_LEN_FUNCTION,
     markdown_escape_first_word,
     markdown_first_line_is_rule,
+    markdown_starts_like_definition,
     wrap_paragraph,
     wrap_paragraph_lines,
 )
@@ -104,7 +105,7 @@ def _add_markdown_hard_break_handling(base_wrapper: LineWrapper) -> LineWrapper:
         # Handle empty input.
         if not segments:
             return ""
-        if len(segments) > 1 and markdown_first_line_is_rule(segments[:2]):
+        if len(segments) > 1 and markdown_starts_like_definition(segments[0]):
             # Several lines for sure: a first segment like `[label]:` must not start a definition.
             segments[0] = markdown_escape_first_word(segments[0])
         # Handle single segment (no hard line breaks).
